@@ -1,4 +1,5 @@
 import LcmProofs.InterpT
+import LcmProofs.InterpBounds
 import LcmProofs.LogGrid
 import LcmProofs.Basic
 import LcmProofs.InterpCorners
@@ -121,8 +122,28 @@ theorem C15_log_coord_mono_across_cells (v w a b : ℝ) (n : ℕ) (ha : 0 < a) (
   have h2 := (logCoord_in_cell w a b n ha hab hn hw s hs).1
   linarith
 
+/-- inside the array (every coordinate in `[0, size - 1]`) both weights of every axis are non-negative: a pointwise larger
+array gives a larger interpolated value, for every rank. Outside, one of the two weights is negative (linear
+extrapolation) and the statement fails - the second `example` below. -/
+theorem C15_monotone_in_values_inside (t t' : Tensor Rat) (cs : List Rat)
+    (hshape : t'.shape = t.shape) (hlen : cs.length = t.shape.length) (h2 : ∀ n ∈ t.shape, 2 ≤ n)
+    (hin : ∀ p ∈ cs.zip t.shape, 0 ≤ p.1 ∧ p.1 ≤ (p.2 : Rat) - 1)
+    (hle : ∀ idx, InBounds t.shape idx → t.get idx ≤ t'.get idx) :
+    interp t cs ≤ interp t' cs :=
+  interp_mono t t' cs hshape hlen h2 hin hle
+
+/-- the weight of the upper neighbour lies in `[0, 1]` exactly because the coordinate is inside -/
+theorem C15_weights_in_unit_interval_inside (c : Rat) (size : Nat) (h2 : 2 ≤ size) (h0 : 0 ≤ c)
+    (h1 : c ≤ (size : Rat) - 1) :
+    0 ≤ c - (lowerIdx' c size : Rat) ∧ c - (lowerIdx' c size : Rat) ≤ 1 :=
+  weight_mem_unit c size h2 h0 h1
+
 -- non-vacuity
 example : interp (linTensor 0 2 3) [coordOf (.lin 0 2 3) (5/2)] = 5/2 := by decide +kernel
 example : coordOf (.lin (-1) 1 5) (1/2) = 3 := by decide +kernel
+-- inside: larger array, larger value; outside (coordinate 2 on an axis of size 2): the order is reversed
+example : let t : Tensor Rat := { shape := [2], get := fun _ => 0 }
+    let t' : Tensor Rat := { shape := [2], get := fun idx => if idx.headD 0 = 0 then 1 else 0 }
+    interp t [1/3] ≤ interp t' [1/3] ∧ ¬ (interp t [2] ≤ interp t' [2]) := by decide +kernel
 
 end Lcm
